@@ -59,7 +59,7 @@ def seeded_table():
                                                  (m.get("detected_by") or "").replace("|", "\\|"), (m.get("detection_note") or "").replace("|", "\\|")))
     n = len(out) - 2
     first = sum(1 for d in sorted(glob.glob(os.path.join(V, "seeded", "*"))) if os.path.exists(os.path.join(d, "meta.json")) and
-                (json.load(open(os.path.join(d, "meta.json"))).get("detection_note") or "").startswith("caught by the rule as first written"))
+                (json.load(open(os.path.join(d, "meta.json"))).get("detection_note") or "").startswith("caught by the rule"))
     out.append("")
     out.append("Score of the rules *as they were when each change arrived*: **%d of %d caught as written**, %d missed and caught only "
                "after a rule was added or strengthened (the last column says which). Sub-agent changes that merely repeated a stored "
